@@ -32,6 +32,10 @@ def bdsOfSpec (start n : Nat) (f : List String) (bdlen : Nat) : List BD :=
       hasTs := tsAll && tsMiss ≠ some i, drs := if i + 1 = bdlen then drs else drs0, rootOk := rooterr ≠ some i }
 
 def aName (a : Nat) : String := s!"a{a}"
+/-- rollapp owner: `o0` = the creator of the rollapps (address 99999), `m<i>` = blocked module account 900+i,
+    `a<i>` an actor (declared, or "nobody" 100000+i) -/
+def ownName (a : Nat) : String :=
+  if a = 99999 then "o0" else if blockedAddr a then s!"m{a - 900}" else if 100000 ≤ a then s!"a{a - 100000}" else s!"a{a}"
 def oName : Option Nat → String
   | none => "-"
   | some a => aName a
@@ -60,7 +64,7 @@ def renderRa (r : Rollapp) : String :=
     match findByHeight r x with
     | some i => s!"{x}>{i}"
     | none => s!"{x}>-")
-  s!" | r{r.id} l={b2s r.launched} tph={r.tph} rev={revs} n={r.states.length} fin={r.lastFin} ev={r.evH} cd={r.cdStart} prop={oName r.proposer} succ={oName r.successor} st={sts} bh={bh}"
+  s!" | r{r.id} l={b2s r.launched} tph={r.tph} rev={revs} n={r.states.length} fin={r.lastFin} ev={r.evH} cd={r.cdStart} prop={oName r.proposer} succ={oName r.successor} own={ownName r.owner} st={sts} bh={bh}"
 
 def render (s : St) (res : String) (nActors : Nat) : String :=
   let ras := String.join (s.ras.map renderRa)
@@ -109,6 +113,8 @@ def actorOf (d : DState) (s : String) : Nat :=
   -- `m<i>`: the i-th blocked module account (`m0` = the distribution module account) = address 900+i
   -- (`Core.blockedAddr`)
   if s.startsWith "m" then 900 + i else
+  -- `o0`: the creator (first owner) of every rollapp
+  if s.startsWith "o" then 99999 else
   if i < d.nActors then i else 100000 + i
 
 /-- result class of a rejected message other than `update`: the bank's refusal of the recipient
@@ -144,6 +150,10 @@ def parseOp (d : DState) (f : List String) : Option Op :=
       -- the standalone governance PunishSequencerProposal: `punish a<i> rewardee=<a<k>|m<k>|-> auth=<gov|a<j>>`
       some (.punish (kv f "auth" = "gov") (actorOf d a)
         ((optActor (kv f "rewardee")).map fun _ => actorOf d (kv f "rewardee")))
+  | "xferowner" :: r :: _ =>
+      -- x/rollapp MsgTransferOwnership: `xferowner r<i> by=<actor> to=<actor> uc=<0|1>` (uc: the new owner's
+      -- bech32 string in upper case — the same address)
+      some (.transferOwner (actorOf d (kv f "by")) (raOf d r) (actorOf d (kv f "to")))
   | "obsolete" :: _ =>
       let v := kv f "v"
       some (.obsolete (kv f "auth" = "gov") (if v = "-" then [] else (v.splitOn ",").map nat!))
